@@ -182,17 +182,24 @@ func c14nested(c *core.Ctx, in []string, r *core.Rand) bool {
 			wantDis = append(wantDis, v)
 		}
 	}
-	if got := slices.Map(in, func(v string) string { inner(); return v + "!" }); !eqSlice(got, wantM) {
+	// callbacks may look at the input while the helper runs: it must read as the caller left it
+	sawChanged := false
+	look := func() {
+		if in[0] != snap[0] || in[len(in)-1] != snap[len(snap)-1] || in[len(in)/2] != snap[len(snap)/2] {
+			sawChanged = true
+		}
+	}
+	if got := slices.Map(in, func(v string) string { inner(); look(); return v + "!" }); !eqSlice(got, wantM) {
 		return fail("Map:nested-helper-calls", fmt.Sprintf("Map gives %q want %q", clipS(got), clipS(wantM)))
 	}
 	pos := 0
 	if got := slices.Filter(in, func(v string) bool { inner(); pos++; return (pos-1)%2 == 0 }); !eqSlice(got, wantFil) {
 		return fail("Filter:nested-helper-calls", fmt.Sprintf("Filter (every other position) gives %q want %q", clipS(got), clipS(wantFil)))
 	}
-	if got := slices.Fold(in, "", func(st, v string) string { inner(); return st + v + "," }); got != strings.Join(snap, ",")+"," {
+	if got := slices.Fold(in, "", func(st, v string) string { inner(); look(); return st + v + "," }); got != strings.Join(snap, ",")+"," {
 		return fail("Fold:nested-helper-calls", fmt.Sprintf("Fold gives %q", got))
 	}
-	if got := slices.FoldReverse(in, 0, func(st int, v string) int { inner(); return st*31 + len(v) }); got != func() int {
+	if got := slices.FoldReverse(in, 0, func(st int, v string) int { inner(); look(); return st*31 + len(v) }); got != func() int {
 		st := 0
 		for i := len(snap) - 1; i >= 0; i-- {
 			st = st*31 + len(snap[i])
@@ -227,6 +234,12 @@ func c14nested(c *core.Ctx, in []string, r *core.Rand) bool {
 	}
 	if innerMsg != "" {
 		return fail("nested-helper-call", "inside a callback: "+innerMsg)
+	}
+	slices.Filter(in, func(string) bool { look(); return false })
+	slices.GroupBy(in, func(v string) int { look(); return len(v) })
+	slices.DistinctFunc(in, func(a, b string) bool { look(); return a == b })
+	if sawChanged {
+		return fail("input-changed-during-call", "a callback of Map/Fold/FoldReverse/Filter/GroupBy/DistinctFunc looked at the input slice while the helper was running and found it changed")
 	}
 	// the same slice changed in place and passed again: every helper must look at it afresh
 	{
@@ -271,6 +284,11 @@ func c14nested(c *core.Ctx, in []string, r *core.Rand) bool {
 		try(func() { slices.DistinctFunc(in, func(a, b string) bool { boom(); return a == b }) })
 		calls = 0
 		try(func() { slices.Fold(in, 0, func(st int, v string) int { boom(); return st + 1 }) })
+		calls = 0
+		try(func() { slices.FoldReverse(in, 0, func(st int, v string) int { boom(); return st + 1 }) })
+		if !eqSlice(in, snap) {
+			return fail("input-modified-after-panicking-callback", "after a helper call whose callback panicked (recovered by the caller) the input slice is not what it was")
+		}
 		cnt := map[string]int{}
 		var order []string
 		for _, v := range snap {
